@@ -31,6 +31,27 @@ func constString(c *ssa.Const) string {
 	return c.Value.ExactString()
 }
 
+// tableTerm: lit[idx] as nested ite over the maximal runs of equal bytes (exact for 0 <= idx < len(lit)).
+func tableTerm(lit string, idx T) T {
+	type run struct {
+		hi int // last index of the run
+		b  byte
+	}
+	var runs []run
+	for i := 0; i < len(lit); i++ {
+		if len(runs) > 0 && runs[len(runs)-1].b == lit[i] {
+			runs[len(runs)-1].hi = i
+		} else {
+			runs = append(runs, run{i, lit[i]})
+		}
+	}
+	acc := IntLit(int64(runs[len(runs)-1].b))
+	for k := len(runs) - 2; k >= 0; k-- {
+		acc = Ite(Le(idx, IntLit(int64(runs[k].hi))), IntLit(int64(runs[k].b)), acc)
+	}
+	return acc
+}
+
 func isFloatSort(s Sort) bool { return s == SF32 || s == SF64 }
 
 func (f *Frame) instr(in ssa.Instruction) {
@@ -219,6 +240,12 @@ func (f *Frame) doIndex(x *ssa.Index) {
 		f.oblige("panic", "index", x.Pos(), And(Le(Zero, idx), Lt(idx, App(SInt, "strlen", s))))
 		v := f.setVal(x, App(SInt, "byteAt", s, idx))
 		f.enc.factAbout(v, And(Le(Zero, v), Le(v, IntLit(255))))
+		if c, ok := x.X.(*ssa.Const); ok && c.Value != nil && c.Value.Kind() == constant.String {
+			// a constant table indexed by a variable: the exact byte as a chain over the runs of equal bytes
+			if lit := constant.StringVal(c.Value); len(lit) > 16 && len(lit) <= 512 {
+				f.enc.factAbout(v, Implies(And(Le(Zero, idx), Lt(idx, IntLit(int64(len(lit))))), Eq(v, tableTerm(lit, idx))))
+			}
+		}
 	case *types.Array:
 		// array value (e.g. a package-level table loaded by value)
 		f.oblige("panic", "index", x.Pos(), And(Le(Zero, idx), Lt(idx, IntLit(xt.Len()))))
@@ -1043,7 +1070,9 @@ func (f *Frame) doNext(x *ssa.Next) {
 		Le(IntLit(1), w), Le(w, IntLit(4)), Implies(ok, Le(Add(pos, w), n)),
 		// single-byte runes are exactly the byte
 		Implies(Lt(r, IntLit(0x80)), And(Eq(w, IntLit(1)), Eq(r, App(SInt, "byteAt", it.m, pos)))),
-		Implies(Eq(w, IntLit(1)), Or(Lt(r, IntLit(0x80)), Eq(r, IntLit(0xFFFD))))))
+		Implies(Eq(w, IntLit(1)), Or(Lt(r, IntLit(0x80)), Eq(r, IntLit(0xFFFD)))),
+		// an ASCII lead byte decodes to itself
+		Implies(And(ok, Lt(App(SInt, "byteAt", it.m, pos), IntLit(0x80))), And(Eq(w, IntLit(1)), Eq(r, App(SInt, "byteAt", it.m, pos))))))
 	idx := f.enc.define(f.sym(x.Name()+"_i"), pos)
 	f.tuples[x] = []T{ok, idx, r}
 	f.stSet(it.stvar, Ite(ok, Add(pos, w), pos))
